@@ -32,7 +32,7 @@ type Graph struct {
 type Fault struct {
 	Node  int    `json:"node"`
 	Field string `json:"field"`
-	// Kind: "err" plain error; "group" ggql.Errors with N members; "wgroup" the same wrapped with %w; "ext" *ggql.Error with extensions; "lext" one with a line and column of its own (wrapped when N is odd);
+	// Kind: "err" plain error; "group" ggql.Errors with N members; "wgroup" the same wrapped with %w; "ext" *ggql.Error with extensions; "lext" one with a line and column of its own (wrapped when N is odd); "valerr" the value is returned as usual, together with a plain error;
 	// "nth" the Any-list accessor fails at element Index of the list held by (node, field).
 	Kind  string `json:"kind"`
 	N     int    `json:"n,omitempty"`
@@ -310,7 +310,11 @@ func (x *Exec) selSet(n *Node, sels []*Sel, out map[string]interface{}, path []i
 			if len(s.Args) > 0 {
 				x.out.T.ArgsSeen++
 			}
-			if f, bad := x.faults[faultKey(n.ID, s.Name)]; bad && f.Kind != "nth" && (f.Call == 0 || f.Call == x.out.Calls[faultKey(n.ID, s.Name)]) {
+			if f, bad := x.faults[faultKey(n.ID, s.Name)]; bad && f.Kind == "valerr" && (f.Call == 0 || f.Call == x.out.Calls[faultKey(n.ID, s.Name)]) {
+				// the resolver hands over the value together with an error: the error is listed, the
+				// value is kept and completed like any other (pinned by the repository's own tests)
+				x.out.Errors = append(x.out.Errors, ExpErr{Path: p, Kind: "valerr", Sel: s.ID})
+			} else if bad && f.Kind != "nth" && (f.Call == 0 || f.Call == x.out.Calls[faultKey(n.ID, s.Name)]) {
 				cnt := 1
 				if f.Kind == "group" || f.Kind == "wgroup" {
 					cnt = f.N
